@@ -18,7 +18,10 @@ where
     }
 
     fn map_arrow(&self, f: &OpenHypergraph<K, O, A>) -> OpenHypergraph<K, O, A> {
-        define_map_arrow(self, f)
+        let r = define_map_arrow(self, f);
+        #[cfg(feature = "verif-hooks")]
+        crate::verif_trace::record_unary("functor.identity", f, &r);
+        r
     }
 
     fn map_operations(
